@@ -37,6 +37,11 @@ class PyVC(ExprMixin, CallMixin, StmtMixin, Engine):
         self.loop_ordinals = {}
         self.loop_local_containers = []
 
+    def ghost_sort(self, sort):
+        u = self.u
+        return {"int": u.Int, "val": u.Val, "bool": u.Bool, "array": u.ElemsSort,
+                "map": u.ValInner}[sort]
+
     # exception-aware class test
     def class_test(self, zref, cname):
         if cname in self.exc_classes:
@@ -86,7 +91,7 @@ class PyVC(ExprMixin, CallMixin, StmtMixin, Engine):
         st.alloc = alloc0
         st.assume(alloc0 > 0)
         for g, sort in C.GHOSTS.items():
-            st.ghost[g] = z3.Const("G0_%s" % g, u.Int if sort == "int" else u.Val)
+            st.ghost[g] = z3.Const("G0_%s" % g, self.ghost_sort(sort))
         a = fn.args
         names = [x.arg for x in a.posonlyargs + a.args + a.kwonlyargs]
         qual = fid.split(":")[1]
@@ -249,7 +254,7 @@ class PyVC(ExprMixin, CallMixin, StmtMixin, Engine):
             st = State({}, {}, {}, z3.Int("alloc0"), [])
             st.assume(st.alloc > 0)
             for g, sort in C.GHOSTS.items():
-                st.ghost[g] = z3.Const("G0_%s" % g, u.Int if sort == "int" else u.Val)
+                st.ghost[g] = z3.Const("G0_%s" % g, self.ghost_sort(sort))
             for name, t in c.params.items():
                 z = z3.Const("arg_%s" % name, u.Val)
                 st.env[name] = self.typed(z, t)
